@@ -226,6 +226,65 @@ type field struct {
 	free      bool   // write permission not fixed by the statement
 	autoUpd   string // "", "time", "sec", "milli", "nano"
 	autoCre   string
+	// default value: "" (none) | "lit" (a literal gorm itself writes for a zero value) |
+	// "expr" (an SQL expression only the database evaluates) | "null" (default:null, database side)
+	def       string
+	defSQL    string // DEFAULT clause of the column
+	defStored string // canonical content of a cell the INSERT left to the database
+}
+
+// dbDefault: the default is evaluated by the database (schema.FieldsWithDefaultDBValue): gorm leaves
+// the column out of the INSERT unless the Go value is non-zero.
+func (f *field) dbDefault() bool { return f.def == "expr" || f.def == "null" }
+
+// absent: canonical content of this field's cell in a new row whose INSERT did not name the column.
+func (f *field) absent() string {
+	if f.def != "" {
+		return f.defStored
+	}
+	return "NULL"
+}
+
+// defaultFor decides the default of a data field: returns the tag part and fills def*.
+// n is unique per field of the model; default values (700.., "dflt..") never equal a sentinel
+// (1000.., "s.."), a generated value (3..~200, "v..") or a zero value.
+func (f *field) defaultFor(r *core.Rand, n int) string {
+	c := f.k.class
+	kindOf := core.Pick(r, []string{"expr", "expr", "expr", "lit", "lit", "null"})
+	if c == "time" || c == "bytes" {
+		kindOf = "null"
+	}
+	f.def = kindOf
+	num := int64(700 + n)
+	switch kindOf {
+	case "null":
+		f.defSQL, f.defStored = "DEFAULT NULL", "NULL"
+		return "default:null"
+	case "lit":
+		switch c {
+		case "int", "uint":
+			f.defSQL, f.defStored = fmt.Sprintf("DEFAULT %d", num), normDB(num)
+			return fmt.Sprintf("default:%d", num)
+		case "float":
+			f.defSQL, f.defStored = fmt.Sprintf("DEFAULT %d.75", num), normDB(float64(num)+0.75)
+			return fmt.Sprintf("default:%d.75", num)
+		default:
+			f.defSQL, f.defStored = fmt.Sprintf("DEFAULT 'dflt%d'", n), normDB(fmt.Sprintf("dflt%d", n))
+			return fmt.Sprintf("default:dflt%d", n)
+		}
+	default:
+		switch c {
+		case "int", "uint":
+			f.defSQL, f.defStored = fmt.Sprintf("DEFAULT (abs(-%d))", num), normDB(num)
+			return fmt.Sprintf("default:(abs(-%d))", num)
+		case "float":
+			f.defSQL, f.defStored = fmt.Sprintf("DEFAULT (abs(-%d.75))", num), normDB(float64(num)+0.75)
+			return fmt.Sprintf("default:(abs(-%d.75))", num)
+		default:
+			f.defSQL, f.defStored = fmt.Sprintf("DEFAULT (lower('DFLT%d'))", n), normDB(fmt.Sprintf("dflt%d", n))
+			return fmt.Sprintf("default:(lower('DFLT%d'))", n)
+		}
+	}
 }
 
 func (f *field) decl() string {
@@ -260,10 +319,10 @@ var namePool = []nameCol{
 }
 
 type permSpec struct {
-	tag               string
-	create, update    bool
-	free, ignored     bool
-	weight            int
+	tag            string
+	create, update bool
+	free, ignored  bool
+	weight         int
 }
 
 // what the property statement (and the documented meaning of the tags) fixes per tag
@@ -349,15 +408,28 @@ func genModel(r *core.Rand, table string) *model {
 			tags = append(tags, "column:"+f.col)
 		}
 		p := pickPerm(r)
+		withDefault := r.Chance(3, 10)
 		if i == n-1 && plain == 0 {
-			p = perms[0] // at least one fully writable field
+			p = perms[0] // at least one fully writable field (without a default: always part of an INSERT)
+			withDefault = false
 		}
-		if p.tag == "" {
+		if p.tag == "" && !withDefault {
 			plain++
 		}
 		f.perm, f.canCreate, f.canUpdate, f.free, f.ignored = p.tag, p.create, p.update, p.free, p.ignored
+		defTag := ""
+		if withDefault && !f.ignored && !strings.Contains(p.tag, "->:false") {
+			defTag = f.defaultFor(r, i)
+		}
+		defFirst := r.Bool()
+		if defTag != "" && defFirst {
+			tags = append(tags, defTag)
+		}
 		if p.tag != "" {
 			tags = append(tags, p.tag)
+		}
+		if defTag != "" && !defFirst {
+			tags = append(tags, defTag)
 		}
 		f.tag = strings.Join(tags, ";")
 		add(f)
@@ -469,6 +541,9 @@ func (m *model) createSQL() string {
 		c := "`" + f.col + "` " + f.k.sql
 		if f.pk && !m.composite() {
 			c += " PRIMARY KEY"
+		}
+		if f.defSQL != "" {
+			c += " " + f.defSQL
 		}
 		cols = append(cols, c)
 	}
